@@ -43,6 +43,8 @@ type Segment struct {
 	// (n+1)-th operation, so that operations run back to back without the probe's
 	// own reads in between (a read can hide or heal a stale lookup state).
 	Sparse int `json:"sparse,omitempty"`
+	// NoTags: the host passes a nil tag map (text input has no tags)
+	NoTags bool `json:"no_tags,omitempty"`
 }
 
 type Workload struct {
@@ -162,6 +164,7 @@ func (Prop) Generate(seed uint64, tier string) *core.Plan {
 			if sparse > 0 && r.Intn(2) == 0 {
 				sg.Sparse = 1 + r.Intn(sparse)
 			}
+			sg.NoTags = r.Intn(4) == 0
 			segs = append(segs, sg)
 		}
 		w.Tasks = append(w.Tasks, segs)
@@ -501,7 +504,11 @@ func (t *taskRun) run(ld []*runtime.Script, base int, when func() (tm input.Poin
 		t.sig = &hostSig{}
 		pt := input.GetPoint()
 		t.curPt = pt
-		input.InitPt(pt, "m", map[string]string{"t1": "tv"}, initialFields(sg), simrt.Now())
+		tags := map[string]string{"t1": "tv"}
+		if sg.NoTags {
+			tags = nil
+		}
+		input.InitPt(pt, "m", tags, initialFields(sg), simrt.Now())
 		t.remember(pt)
 		if cls, detail := invariants(pt); cls != "" {
 			t.fail("invariant", "init:"+cls, detail, -1)
@@ -741,6 +748,11 @@ func (Prop) Shrink(p *core.Plan) []*core.Plan {
 			if sg.Sparse > 0 {
 				nw := clone()
 				nw.Tasks[ti][si].Sparse = 0
+				mk(nw)
+			}
+			if sg.NoTags {
+				nw := clone()
+				nw.Tasks[ti][si].NoTags = false
 				mk(nw)
 			}
 			if sg.F1 != "int64" {
